@@ -103,6 +103,8 @@ def replay(scn):
                         idx = [p - 1 for p in i["idx"]]
                         if form == 1:
                             idx = np.array(idx, dtype=int)
+                        elif form == 2:
+                            idx = [p - a.shape[d] for p in idx]        # the same positions counted from the end
                         res = a.take_axis(idx, axis=ax, indexing="position")
                 elif op == "compress_axis":
                     m = np.array(i["mask"], dtype=bool)
